@@ -247,7 +247,15 @@ let gen ?tablefile seed count =
           if exts <> [] then edit_to (pick exts) true
         end;
         true end else false in
-    let do_restart () = if idle () then begin let c = Random.bool () in ev (Nucleo.ERestart c); emit (Printf.sprintf "restart %d" (Bool.to_int c)); true end else false in
+    let do_restart () = if idle () then begin
+        let c = Random.bool () in ev (Nucleo.ERestart c); emit (Printf.sprintf "restart %d" (Bool.to_int c));
+        (* style 2: back-to-back restarts with an injector created in between (it belongs to a stream that never saw
+           a tick or an item and must stay disconnected from the newest stream) *)
+        if style = 2 && Random.int 2 = 0 then begin
+          ignore (do_inj ());
+          let c2 = Random.bool () in ev (Nucleo.ERestart c2); emit (Printf.sprintf "restart %d" (Bool.to_int c2))
+        end;
+        true end else false in
     let do_tick () = if idle () then begin let z = ((style = 3 || style = 5) && Random.int 4 > 0) || Random.int 3 = 0 in ev (Nucleo.ETickBegin z); emit (Printf.sprintf "tick %d" (if z then 0 else 1)); true end else false in
     let tick_begin z = ev (Nucleo.ETickBegin z); emit (if z then "tick 0" else "tick 1") in
     (* finish the tick in progress and the run (to the point where the pool thread is idle again) *)
